@@ -397,7 +397,8 @@ func cmdCheck(args []string) int {
 				if len(p.OrphanPkgs[opk]) > 0 && len(p.BindByFunc[ob.Func]) == 0 {
 					p.bindProblem(ob.Func, p.OrphanPkgs[opk][0]+": a function under contract of this package is gone, its callers' proofs have lost it")
 				}
-				if (len(p.BindByFunc[ob.Func]) > 0 || len(p.ApproxBind[ob.Func]) > 0) && !confirmed {
+				// (an obligation decided from the typed AST does not depend on how the contract binds)
+				if (len(p.BindByFunc[ob.Func]) > 0 || len(p.ApproxBind[ob.Func]) > 0) && !confirmed && ob.Solver != "frame-checker" {
 					// the contract of this function no longer fits its code (a loop was restructured, a local renamed): the
 					// failed proof says nothing about the property. Undecided; the check ends with status 2, not with a violation
 					bindUndecided[ob.Func] = append(bindUndecided[ob.Func], ob.Name)
